@@ -12,6 +12,7 @@ Create an X12 document from a XML data file in the simple form
 """
 import xml.etree.cElementTree as et
 import logging
+import re
 
 # Intrapackage imports
 import pyx12.segment
@@ -78,12 +79,35 @@ def get_segment(cSegment, seg_term='~', ele_term='*', subele_term=':'):
             ele_id = node.get('id')
             # (an element without content has no text at all; the ISA keeps all its elements)
             if node.text is not None and node.text != '':
-                seg_data.set(ele_id, node.text)
+                _set(seg_data, seg_id, ele_id, node.text)
             elif seg_id == 'ISA':
                 seg_data.set(ele_id, '')
         elif node.tag == 'comp':
             for subele in node.findall('subele'):
                 subele_id = subele.get('id')
                 if subele.text is not None and subele.text != '':
-                    seg_data.set(subele_id, subele.text)
+                    _set(seg_data, seg_id, subele_id, subele.text)
     return seg_data
+
+
+def _set(seg_data, seg_id, ref_des, val):
+    """
+    Set by reference designator.  Elements past the 99th (more than any segment
+    defines, but the data may have them) are labelled by position: N1100, N1100-02
+    """
+    m = None
+    if seg_id and ref_des.startswith(seg_id):
+        m = re.match(r'([0-9]{3,})(-([0-9]+))?$', ref_des[len(seg_id):])
+    if m is None:
+        seg_data.set(ref_des, val)
+        return
+    ele_idx = int(m.group(1)) - 1
+    while len(seg_data.elements) <= ele_idx:
+        seg_data.elements.append(pyx12.segment.Composite('', seg_data.subele_term))
+    if m.group(3) is None:
+        seg_data.elements[ele_idx] = pyx12.segment.Composite(val, seg_data.subele_term)
+    else:
+        comp_idx = int(m.group(3)) - 1
+        while len(seg_data.elements[ele_idx]) <= comp_idx:
+            seg_data.elements[ele_idx].elements.append(pyx12.segment.Element(''))
+        seg_data.elements[ele_idx][comp_idx] = pyx12.segment.Element(val)
